@@ -286,6 +286,44 @@ class ScopeAnalysis:
             S.deltas = {0}
             return S
         S.touches = True
+        # options whose variant is worth remembering: locals that are both tested (`discriminant(x)`, `x.is_some()`) in this body, closed under whole-value copies
+        tested = set()
+        for bl in blocks:
+            for st in bl["s"]:
+                if st[0] == "A" and st[2][0] == "Disc" and len(st[2][1]) == 1 and "option::Option<" in B.local_ty(st[2][1][0]):
+                    tested.add(st[2][1][0])
+            t = bl["t"]
+            if t[0] == "call" and re.search(r"option::Option::<.*>::(is_some|is_none)$", t[1]["f"].get("p") or "") and t[1].get("args"):
+                a = t[1]["args"][0]
+                if a[0] in ("C", "M") and len(a[1]) == 1:
+                    tested.add(self.ref_target(B, a[1][0]) if self.ref_target(B, a[1][0]) is not None else a[1][0])
+        grew = True
+        while grew:
+            grew = False
+            for bl in blocks:
+                for st in bl["s"]:
+                    if st[0] == "A" and len(st[1]) == 1 and st[1][0] in tested and st[2][0] == "Use" and st[2][1][0] in ("C", "M") and len(st[2][1][1]) == 1 and st[2][1][1][0] not in tested:
+                        tested.add(st[2][1][1][0])
+                        grew = True
+        self._tested_options = tested
+        # boolean locals that are tested by more than one switch (directly or through a copy): only for those is the answer worth remembering
+        def bool_chain(l):
+            chain = [l]
+            for _ in range(3):
+                ds = B.defs.get(chain[-1], [])
+                if len(ds) == 1 and ds[0][2] == "assign" and ds[0][3][2][0] == "Use" and ds[0][3][2][1][0] in ("C", "M") and len(ds[0][3][2][1][1]) == 1 \
+                        and B.local_ty(ds[0][3][2][1][1][0]) == "bool":
+                    chain.append(ds[0][3][2][1][1][0])
+                else:
+                    break
+            return chain
+        nsw = {}
+        for bl in blocks:
+            t = bl["t"]
+            if t[0] == "switch" and t[1][0] in ("C", "M") and len(t[1][1]) == 1 and B.local_ty(t[1][1][0]) == "bool":
+                src = bool_chain(t[1][1][0])[-1]
+                nsw[src] = nsw.get(src, 0) + 1
+        retested = {l for l, k in nsw.items() if k >= 2 and not any(d[2] == "assign" and d[3][2][0] == "Use" and d[3][2][1][0] == "K" for d in B.defs.get(l, []))}
         # path-sensitive exploration
         flags0 = ()
         start = (0, 0, 0, flags0)   # block, depth, min, flags
@@ -383,6 +421,12 @@ class ScopeAnalysis:
                         # a Range is its own iterator
                         for k in [k for k in list(fl) if k[0] == "f" and k[1] == a0]:
                             fl[("f", dl, k[2])] = fl[k]
+                    elif re.search(r"option::Option::<.*>::(is_some|is_none)$", pth) and len(args) == 1:
+                        # `x.is_some()` of an option whose variant is known on this path (None = 0, Some = 1)
+                        tgt = self.ref_target(B, a0)
+                        d = fl.get(("disc", tgt)) if tgt is not None else fl.get(("disc", a0))
+                        if d in (0, 1):
+                            fl[("l", dl)] = (d == 1) == pth.endswith("is_some")
                     elif re.search(r"(range::<impl .*Iterator for .*Range<.*>>|Iterator)::next$", pth):
                         # `for _ in 0..n` with known bounds: the loop is unrolled exactly
                         it = self.ref_target(B, a0)
@@ -412,6 +456,17 @@ class ScopeAnalysis:
                     if tgt is None:
                         tgt = t[3]
                     work.append((tgt, depth, mn, tuple(sorted(fl.items()))))
+                    continue
+                # an unknown boolean local that is tested: each branch remembers the answer (`if !has_item { push } ... if !has_item { pop }` with has_item computed by a call)
+                if t[1][0] in ("C", "M") and len(t[1][1]) == 1 and B.local_ty(t[1][1][0]) == "bool" and len(t[2]) == 1 and t[2][0][0] == 0 \
+                        and bool_chain(t[1][1][0])[-1] in retested:
+                    chain = bool_chain(t[1][1][0])
+                    S.min = min(S.min, mn)
+                    for val, tgt in ((False, t[2][0][1]), (True, t[3])):
+                        f2 = dict(fl)
+                        for l in chain:
+                            f2[("l", l)] = val
+                        work.append((tgt, depth, mn, tuple(sorted(f2.items()))))
                     continue
             S.min = min(S.min, mn)
             self.push_succ(work, t, depth, mn, fl, blocks)
@@ -468,8 +523,14 @@ class ScopeAnalysis:
             key = ("l", dst[0])
             # any assignment kills previous knowledge about the local and its fields
             fl.pop(key, None)
+            fl.pop(("disc", dst[0]), None)
             for k in [k for k in fl if k[0] == "f" and k[1] == dst[0]]:
                 fl.pop(k)
+            if rv[0] == "Agg" and isinstance(rv[1], list) and rv[1][0] == "adt" and len(rv[1]) > 2 and isinstance(rv[1][2], int) and not isinstance(rv[1][2], bool) \
+                    and str(rv[1][1]).endswith("option::Option") and dst[0] in getattr(self, "_tested_options", ()):
+                fl[("disc", dst[0])] = rv[1][2]          # `x = Some(..)` / `x = None`: the variant is known until x is assigned again
+            if rv[0] == "Use" and rv[1][0] in ("C", "M") and len(rv[1][1]) == 1 and ("disc", rv[1][1][0]) in fl and dst[0] in getattr(self, "_tested_options", ()):
+                fl[("disc", dst[0])] = fl[("disc", rv[1][1][0])]
             if rv[0] == "Use":
                 v = self.operand_flag(rv[1], fl)
                 if v is not None:
@@ -528,6 +589,7 @@ class ScopeAnalysis:
         else:
             # writes through pointers etc.: forget everything about the base local
             fl.pop(("l", dst[0]), None)
+            fl.pop(("disc", dst[0]), None)
 
 
 # ======================================================================================================
